@@ -70,9 +70,9 @@ CLAIMS = {
              'discriminant. For each of the 14/13 packet variants the encoder writes the specified type+flags byte and the decoder maps it back to the same variant; the PUBLISH first-byte '
              'expression and the decoders\' dup/qos/retain expressions round-trip for all 12 combinations. Every decoder property loop accepts exactly the identifiers allowed in its packet with '
              'the specified wire type and repeatability; every emitted property is allowed in its packet, has a field of the specified wire type, every allowed property can be emitted, and each '
-             'identifier is decoded into the very field it is encoded from (52 pairs); for 18 packet types the sequences of wire tokens of encoder and decoder (type and field per position, loops, property blocks) are equal. Imported: every encoder writes exactly what its size function counts and length prefixes have the right '
+             'identifier is decoded into the very field it is encoded from (52 pairs); for 18 packet types the sequences of wire tokens of encoder and decoder (type and field per position, loops, property blocks) are equal and follow the transcribed layout of the specification. Imported: every encoder writes exactly what its size function counts and length prefixes have the right '
              'width (C09), decoders accept a frame only after reading all of it (C02).',
-        note='Not decided: equality of concrete field values after a round trip (string contents, numeric values), agreement of the fixed-field order with the specification text (encoder and decoder are compared with each other, not with a transcribed layout), '
+        note='Not decided: equality of concrete field values after a round trip (string contents, numeric values), which same-typed fixed field sits at which position relative to the specification (types and order are compared with the transcribed layout, field names only between encoder and decoder), '
              'acceptance of every legal property ORDER (follows from the loop shape but is not separately proven), an independent spec encoder/decoder. Spec tables are hand transcriptions.',
         ref='DESIGN.md section 5 C01'),
     'C02': dict(
